@@ -33,6 +33,12 @@ def load_registry():
         attrs = tomllib.load(f)
     reg["attr"] = {a["id"]: a for a in attrs.get("attr", [])}
     names = set()
+    kf = reg.get("kani_file", {})
+    for o in reg.get("kani", []):
+        d = kf.get(o["file"], {})
+        for k in ("module", "needs", "attrs"):
+            if k not in o and k in d:
+                o[k] = d[k]
     for o in reg.get("kani", []) + reg.get("verus", []):
         if o["name"] in names:
             raise SystemExit("duplicate obligation name " + o["name"])
